@@ -35,7 +35,7 @@ OBJECTS = ([("bm", n) for n in streams.ZLIOBAITE_BMS] + [("bm", "DensityBasedSpl
 
 
 def gen_cases(tier, seed):
-    reps = {"quick": 8, "thorough": 160}[tier]
+    reps = {"quick": 16, "thorough": 160}[tier]
     n = {"quick": 300, "thorough": 4000}[tier]
     cases = []
     for fam, name in OBJECTS:
